@@ -43,6 +43,14 @@ func init() {
 					return ok && !a.Positive && originOf(Callee(info, ce)) == isPanic && len(ce.Args) == 1 && identObj(info, ce.Args[0]) == errObj
 				})
 				start := ee.E.B.Succs[ee.E.K]
+				// `val.Type == LError && !IsInternalPanic(val)`: the edge that establishes the error also
+				// establishes the carve-out, so everything behind it is behind the carve-out
+				edgeCarves := false
+				for _, ce := range cut {
+					if ce.B == ee.E.B && ce.K == ee.E.K {
+						edgeCarves = true
+					}
+				}
 				for _, b := range fc.G.Blocks {
 					if !fc.Live(b) {
 						continue
@@ -54,6 +62,10 @@ func init() {
 						}
 						if identObj(info, rs.Results[0]) == errObj {
 							continue // propagates the error itself
+						}
+						if edgeCarves && fc.reachableFromAvoiding(start, b, nil) {
+							obs = append(obs, mkOb(c, "CARVE.ignore-errors", u, ord.next("swallowing return "+types.ExprString(rs.Results[0])), rs, Proved, "the edge that establishes the error also establishes !IsInternalPanic(err)", true))
+							continue
 						}
 						if !fc.reachableFromAvoiding(start, b, nil) {
 							continue
@@ -84,248 +96,310 @@ func init() {
 			if fn == nil || isPanic == nil || push == nil || strFld == nil || lerr == nil {
 				return []Obligation{anchorMissing("CARVE.handler-bind", "opHandlerBind/IsInternalPanic/PushCondition")}
 			}
-			u := FuncUnit{fn, fd, pkg}
-			info := pkg.TypesInfo
-			fc := c.cfgOf(u, nil)
-			var obs []Obligation
-			// the dispatch: a PushCondition call here, or a call to a private helper that makes it
-			type dispatch struct {
-				loc     Loc
-				call    *ast.CallExpr // the call in opHandlerBind
-				push    *ast.CallExpr // the PushCondition call
-				inUnit  FuncUnit      // where the PushCondition call is written
-				viaCall bool
-			}
-			var pushes []dispatch
-			for _, p := range fc.findCalls(push) {
-				pushes = append(pushes, dispatch{p.Loc, p.Call, p.Call, u, false})
-			}
-			for _, hu := range c.withHelpers(u) {
-				if hu.Obj == fn {
-					continue
-				}
-				var pc *ast.CallExpr
-				for _, ce := range callsIn(hu.Decl.Body, false) {
-					if originOf(Callee(hu.Pkg.TypesInfo, ce)) == push {
-						pc = ce
+			root := FuncUnit{fn, fd, pkg}
+			// analyze: the selection and dispatch as written in unit u.  errParam == nil: u is opHandlerBind and the
+			// error is whatever a `X.Type == LError` edge names; otherwise u is a private helper the error was
+			// handed to (handleCondition(env, binds, val)) and errParam is the parameter that receives it.
+			var analyze func(u FuncUnit, errParam types.Object, depth int) []Obligation
+			analyze = func(u FuncUnit, errParam types.Object, depth int) []Obligation {
+				fn, fd, pkg := u.Obj, u.Decl, u.Pkg
+				info := pkg.TypesInfo
+				fc := c.cfgOf(u, nil)
+				var obs []Obligation
+				// delegate: the error is handed, as an argument, to an unexported function of the package that
+				// (transitively) makes the dispatch — the selection is written there
+				delegate := func(errObj types.Object) []Obligation {
+					if depth >= 3 || errObj == nil {
+						return nil
 					}
-				}
-				if pc == nil {
-					continue
-				}
-				for _, p := range fc.findCalls(hu.Obj) {
-					pushes = append(pushes, dispatch{p.Loc, p.Call, pc, hu, true})
-				}
-			}
-			if len(pushes) == 0 {
-				return []Obligation{mkOb(c, "CARVE.handler-bind", u, "dispatch", fd, Undecided, "no PushCondition call: handler dispatch changed shape", false)}
-			}
-			goalSelected := func(v map[string]bool) bool { return v["nameEq"] || v["catchAll"] || v["h11"] || v["h10"] }
-			goalCarved := func(v map[string]bool) bool {
-				return v["nameEq"] || (v["$has:isPanic"] && !v["isPanic"]) || v["h11"] || v["h01"]
-			}
-			// nameObjs: string parameters of a helper that receive `<binding symbol>.Str` from its caller
-			// (`handlerMatches(sym.Str, val)`): inside the helper they are the binding's specifier
-			var mkCls func(info *types.Info, errObj types.Object, nameObjs map[types.Object]bool, depth int) func(e ast.Expr) (string, bool)
-			mkCls = func(info *types.Info, errObj types.Object, nameObjs map[types.Object]bool, depth int) func(e ast.Expr) (string, bool) {
-				isStrOf := func(e ast.Expr, o types.Object) bool {
-					se, ok := ast.Unparen(e).(*ast.SelectorExpr)
-					return ok && FieldOfSelector(info, se) == strFld && identObj(info, se.X) == o
-				}
-				isAnyStr := func(e ast.Expr) (types.Object, bool) {
-					if o := identObj(info, e); o != nil && nameObjs[o] {
-						return o, true
-					}
-					se, ok := ast.Unparen(e).(*ast.SelectorExpr)
-					if !ok || FieldOfSelector(info, se) != strFld {
-						return nil, false
-					}
-					return identObj(info, se.X), true
-				}
-				return func(e ast.Expr) (string, bool) {
-					if ce, ok := ast.Unparen(e).(*ast.CallExpr); ok {
+					var out []Obligation
+					done := map[*types.Func]bool{}
+					for _, ce := range callsIn(fd.Body, false) {
 						h := originOf(Callee(info, ce))
-						if h == isPanic && len(ce.Args) == 1 && identObj(info, ce.Args[0]) == errObj {
-							return "isPanic", false
-						}
-						// a boolean helper of the package given the error: what its true result entails
-						if h != nil && h != isPanic && depth < 2 && h.Pkg() == fn.Pkg() {
-							if po := boundParam(info, ce, h, errObj); po != nil {
-								hnames := map[types.Object]bool{}
-								hsig := h.Type().(*types.Signature)
-								for i, a := range ce.Args {
-									if o, ok := isAnyStr(a); ok && o != errObj && i < hsig.Params().Len() {
-										hnames[hsig.Params().At(i)] = true
-									}
-								}
-								sub := func(hi *types.Info) func(e ast.Expr) (string, bool) { return mkCls(hi, po, hnames, depth+1) }
-								sel := c.helperResultEntails(h, true, sub, goalSelected)
-								car := c.helperResultEntails(h, true, sub, goalCarved)
-								switch {
-								case sel && car:
-									return "h11", false
-								case sel:
-									return "h10", false
-								case car:
-									return "h01", false
-								}
-							}
-						}
-						return "", false
-					}
-					be, ok := ast.Unparen(e).(*ast.BinaryExpr)
-					if !ok || (be.Op != token.EQL && be.Op != token.NEQ) {
-						return "", false
-					}
-					// `bind != nil` with bind := findBinding(…, err): a selecting helper of the package — what its
-					// non-nil result entails
-					if depth < 2 && (isNilIdent(info, be.X) || isNilIdent(info, be.Y)) {
-						x := be.X
-						if isNilIdent(info, be.X) {
-							x = be.Y
-						}
-						if d := soleDef(info, fd.Body, x); d != nil && depth == 0 {
-							if hc, ok := ast.Unparen(d).(*ast.CallExpr); ok {
-								if h := originOf(Callee(info, hc)); h != nil && h.Pkg() == fn.Pkg() {
-									if po := boundParam(info, hc, h, errObj); po != nil {
-										sub := func(hi *types.Info) func(e ast.Expr) (string, bool) {
-											return mkCls(hi, po, map[types.Object]bool{}, depth+1)
-										}
-										sel := c.helperNonNilEntails(h, sub, goalSelected)
-										car := c.helperNonNilEntails(h, sub, goalCarved)
-										// the atom is true when x is non-nil for `!=`, nil for `==`
-										neg := be.Op == token.EQL
-										switch {
-										case sel && car:
-											return "h11", neg
-										case sel:
-											return "h10", neg
-										case car:
-											return "h01", neg
-										}
-									}
-								}
-							}
-						}
-						return "", false
-					}
-					neg := be.Op == token.NEQ
-					if isStrOf(be.X, errObj) || isStrOf(be.Y, errObj) {
-						other := be.Y
-						if isStrOf(be.Y, errObj) {
-							other = be.X
-						}
-						if o, ok := isAnyStr(other); ok && o != errObj {
-							return "nameEq", neg
-						}
-						return "", false
-					}
-					for _, pair := range [][2]ast.Expr{{be.X, be.Y}, {be.Y, be.X}} {
-						if _, ok := isAnyStr(pair[0]); ok {
-							if tv, ok := info.Types[pair[1]]; ok && tv.Value != nil && tv.Value.Kind() == constant.String && constant.StringVal(tv.Value) == "condition" {
-								return "catchAll", neg
-							}
-						}
-					}
-					return "", false
-				}
-			}
-			for _, ee := range errorEdges(fc, typeFld, lerr) {
-				errObj := ee.Obj
-				start := ee.E.B.Succs[ee.E.K]
-				reach := false
-				for _, p := range pushes {
-					if fc.reachableFromAvoiding(start, p.loc.B, nil) {
-						reach = true
-					}
-				}
-				if !reach {
-					continue
-				}
-				cls := mkCls(info, errObj, nil, 0)
-				selected := fc.edgesEntailing(cls, goalSelected)
-				carved := fc.edgesEntailing(cls, goalCarved)
-				// the search over the bindings ends early only for a binding that matches: every way out of the
-				// loop that contains the dispatch (a return, a break) other than going on to the next binding
-				// lies behind an edge that selects the binding AND behind one that respects the carve-out.  A
-				// catch-all binding that may not handle a host panic is passed over like any other that does
-				// not match — a later binding naming the condition must still get its turn.
-				for _, p := range pushes {
-					if p.viaCall {
-						continue
-					}
-					loop := innermostLoopAround(fd.Body, p.call)
-					if loop == nil {
-						continue
-					}
-					var body *ast.BlockStmt
-					switch l := loop.(type) {
-					case *ast.RangeStmt:
-						body = l.Body
-					case *ast.ForStmt:
-						body = l.Body
-					}
-					inBody := func(n ast.Node) bool { return n.Pos() >= body.Pos() && n.End() <= body.End() }
-					xord := &ordinal{}
-					for _, b := range fc.G.Blocks {
-						if !fc.Live(b) || len(b.Nodes) == 0 || !inBody(b.Nodes[0]) {
+						if h == nil || h.Pkg() != fn.Pkg() || h.Exported() || h == fn || done[h] || !c.reaches(h, push) {
 							continue
 						}
-						exit := ""
-						if _, ok := b.Nodes[len(b.Nodes)-1].(*ast.ReturnStmt); ok {
-							exit = "return"
-						}
-						for _, sc := range b.Succs {
-							if sc.Stmt == loop && (sc.Kind == cfg.KindRangeDone || sc.Kind == cfg.KindForDone) {
-								exit = "break"
-							}
-						}
-						if exit == "" || !fc.reachableFromAvoiding(start, b, nil) {
+						hd := c.declOf[h]
+						if hd == nil || hd.Body == nil {
 							continue
 						}
-						construct := xord.next("selection loop exit (" + exit + ")")
-						last := b.Nodes[len(b.Nodes)-1]
-						switch {
-						case len(selected) == 0 || fc.reachableFromAvoiding(start, b, selected):
-							obs = append(obs, mkOb(c, "CARVE.handler-bind", u, construct, last, Violated, "the search over the bindings can end here for a binding whose specifier neither equals the condition name nor is `condition`: later bindings never get their turn", true))
-						case len(carved) == 0 || fc.reachableFromAvoiding(start, b, carved):
-							obs = append(obs, mkOb(c, "CARVE.handler-bind", u, construct, last, Violated, "the search over the bindings can end here at a catch-all binding that may not handle the host panic: a later binding that names the condition (internal-panic) never gets its turn", true))
-						default:
-							obs = append(obs, mkOb(c, "CARVE.handler-bind", u, construct, last, Proved, "the search ends here only for a binding that matches the condition (and respects the carve-out); every other binding is passed over", true))
+						if po := boundParam(info, ce, h, errObj); po != nil {
+							done[h] = true
+							out = append(out, analyze(FuncUnit{h, hd, c.pkgOf[hd]}, po, depth+1)...)
+						}
+					}
+					return out
+				}
+				// the dispatch: a PushCondition call here, or a call to a private helper that makes it
+				type dispatch struct {
+					loc     Loc
+					call    *ast.CallExpr // the call in opHandlerBind
+					push    *ast.CallExpr // the PushCondition call
+					inUnit  FuncUnit      // where the PushCondition call is written
+					viaCall bool
+				}
+				var pushes []dispatch
+				for _, p := range fc.findCalls(push) {
+					pushes = append(pushes, dispatch{p.Loc, p.Call, p.Call, u, false})
+				}
+				for _, hu := range c.withHelpers(u) {
+					if hu.Obj == fn {
+						continue
+					}
+					var pc *ast.CallExpr
+					for _, ce := range callsIn(hu.Decl.Body, false) {
+						if originOf(Callee(hu.Pkg.TypesInfo, ce)) == push {
+							pc = ce
+						}
+					}
+					if pc == nil {
+						continue
+					}
+					for _, p := range fc.findCalls(hu.Obj) {
+						pushes = append(pushes, dispatch{p.Loc, p.Call, pc, hu, true})
+					}
+				}
+				if len(pushes) == 0 {
+					var errObjs []types.Object
+					if errParam != nil {
+						errObjs = append(errObjs, errParam)
+					} else {
+						for _, ee := range errorEdges(fc, typeFld, lerr) {
+							errObjs = append(errObjs, ee.Obj)
+						}
+					}
+					for _, eo := range errObjs {
+						if out := delegate(eo); len(out) > 0 {
+							return out
+						}
+					}
+					return []Obligation{mkOb(c, "CARVE.handler-bind", u, "dispatch", fd, Undecided, "no PushCondition call: handler dispatch changed shape", false)}
+				}
+				goalSelected := func(v map[string]bool) bool { return v["nameEq"] || v["catchAll"] || v["h11"] || v["h10"] }
+				goalCarved := func(v map[string]bool) bool {
+					return v["nameEq"] || (v["$has:isPanic"] && !v["isPanic"]) || v["h11"] || v["h01"]
+				}
+				// nameObjs: string parameters of a helper that receive `<binding symbol>.Str` from its caller
+				// (`handlerMatches(sym.Str, val)`): inside the helper they are the binding's specifier
+				var mkCls func(info *types.Info, errObj types.Object, nameObjs map[types.Object]bool, depth int) func(e ast.Expr) (string, bool)
+				mkCls = func(info *types.Info, errObj types.Object, nameObjs map[types.Object]bool, depth int) func(e ast.Expr) (string, bool) {
+					isStrOf := func(e ast.Expr, o types.Object) bool {
+						se, ok := ast.Unparen(e).(*ast.SelectorExpr)
+						return ok && FieldOfSelector(info, se) == strFld && identObj(info, se.X) == o
+					}
+					isAnyStr := func(e ast.Expr) (types.Object, bool) {
+						if o := identObj(info, e); o != nil && nameObjs[o] {
+							return o, true
+						}
+						se, ok := ast.Unparen(e).(*ast.SelectorExpr)
+						if !ok || FieldOfSelector(info, se) != strFld {
+							return nil, false
+						}
+						return identObj(info, se.X), true
+					}
+					return func(e ast.Expr) (string, bool) {
+						if ce, ok := ast.Unparen(e).(*ast.CallExpr); ok {
+							h := originOf(Callee(info, ce))
+							if h == isPanic && len(ce.Args) == 1 && identObj(info, ce.Args[0]) == errObj {
+								return "isPanic", false
+							}
+							// a boolean helper of the package given the error: what its true result entails
+							if h != nil && h != isPanic && depth < 2 && h.Pkg() == fn.Pkg() {
+								if po := boundParam(info, ce, h, errObj); po != nil {
+									hnames := map[types.Object]bool{}
+									hsig := h.Type().(*types.Signature)
+									for i, a := range ce.Args {
+										if o, ok := isAnyStr(a); ok && o != errObj && i < hsig.Params().Len() {
+											hnames[hsig.Params().At(i)] = true
+										}
+									}
+									sub := func(hi *types.Info) func(e ast.Expr) (string, bool) { return mkCls(hi, po, hnames, depth+1) }
+									sel := c.helperResultEntails(h, true, sub, goalSelected)
+									car := c.helperResultEntails(h, true, sub, goalCarved)
+									switch {
+									case sel && car:
+										return "h11", false
+									case sel:
+										return "h10", false
+									case car:
+										return "h01", false
+									}
+								}
+							}
+							return "", false
+						}
+						be, ok := ast.Unparen(e).(*ast.BinaryExpr)
+						if !ok || (be.Op != token.EQL && be.Op != token.NEQ) {
+							return "", false
+						}
+						// `bind != nil` with bind := findBinding(…, err): a selecting helper of the package — what its
+						// non-nil result entails
+						if depth < 2 && (isNilIdent(info, be.X) || isNilIdent(info, be.Y)) {
+							x := be.X
+							if isNilIdent(info, be.X) {
+								x = be.Y
+							}
+							if d := soleDef(info, fd.Body, x); d != nil && depth == 0 {
+								if hc, ok := ast.Unparen(d).(*ast.CallExpr); ok {
+									if h := originOf(Callee(info, hc)); h != nil && h.Pkg() == fn.Pkg() {
+										if po := boundParam(info, hc, h, errObj); po != nil {
+											sub := func(hi *types.Info) func(e ast.Expr) (string, bool) {
+												return mkCls(hi, po, map[types.Object]bool{}, depth+1)
+											}
+											sel := c.helperNonNilEntails(h, sub, goalSelected)
+											car := c.helperNonNilEntails(h, sub, goalCarved)
+											// the atom is true when x is non-nil for `!=`, nil for `==`
+											neg := be.Op == token.EQL
+											switch {
+											case sel && car:
+												return "h11", neg
+											case sel:
+												return "h10", neg
+											case car:
+												return "h01", neg
+											}
+										}
+									}
+								}
+							}
+							return "", false
+						}
+						neg := be.Op == token.NEQ
+						if isStrOf(be.X, errObj) || isStrOf(be.Y, errObj) {
+							other := be.Y
+							if isStrOf(be.Y, errObj) {
+								other = be.X
+							}
+							if o, ok := isAnyStr(other); ok && o != errObj {
+								return "nameEq", neg
+							}
+							return "", false
+						}
+						for _, pair := range [][2]ast.Expr{{be.X, be.Y}, {be.Y, be.X}} {
+							if _, ok := isAnyStr(pair[0]); ok {
+								if tv, ok := info.Types[pair[1]]; ok && tv.Value != nil && tv.Value.Kind() == constant.String && constant.StringVal(tv.Value) == "condition" {
+									return "catchAll", neg
+								}
+							}
+						}
+						return "", false
+					}
+				}
+				type errStart struct {
+					obj   types.Object
+					start *cfg.Block
+				}
+				var starts []errStart
+				if errParam != nil {
+					starts = append(starts, errStart{errParam, fc.G.Blocks[0]})
+				} else {
+					for _, ee := range errorEdges(fc, typeFld, lerr) {
+						starts = append(starts, errStart{ee.Obj, ee.E.B.Succs[ee.E.K]})
+					}
+				}
+				for _, es := range starts {
+					errObj := es.obj
+					start := es.start
+					reach := false
+					for _, p := range pushes {
+						if fc.reachableFromAvoiding(start, p.loc.B, nil) {
+							reach = true
+						}
+					}
+					if !reach {
+						continue
+					}
+					cls := mkCls(info, errObj, nil, 0)
+					selected := fc.edgesEntailing(cls, goalSelected)
+					carved := fc.edgesEntailing(cls, goalCarved)
+					// the search over the bindings ends early only for a binding that matches: every way out of the
+					// loop that contains the dispatch (a return, a break) other than going on to the next binding
+					// lies behind an edge that selects the binding AND behind one that respects the carve-out.  A
+					// catch-all binding that may not handle a host panic is passed over like any other that does
+					// not match — a later binding naming the condition must still get its turn.
+					for _, p := range pushes {
+						if p.viaCall {
+							continue
+						}
+						loop := innermostLoopAround(fd.Body, p.call)
+						if loop == nil {
+							continue
+						}
+						var body *ast.BlockStmt
+						switch l := loop.(type) {
+						case *ast.RangeStmt:
+							body = l.Body
+						case *ast.ForStmt:
+							body = l.Body
+						}
+						inBody := func(n ast.Node) bool { return n.Pos() >= body.Pos() && n.End() <= body.End() }
+						xord := &ordinal{}
+						for _, b := range fc.G.Blocks {
+							if !fc.Live(b) || len(b.Nodes) == 0 || !inBody(b.Nodes[0]) {
+								continue
+							}
+							exit := ""
+							if _, ok := b.Nodes[len(b.Nodes)-1].(*ast.ReturnStmt); ok {
+								exit = "return"
+							}
+							for _, sc := range b.Succs {
+								if sc.Stmt == loop && (sc.Kind == cfg.KindRangeDone || sc.Kind == cfg.KindForDone) {
+									exit = "break"
+								}
+							}
+							if exit == "" || !fc.reachableFromAvoiding(start, b, nil) {
+								continue
+							}
+							construct := xord.next("selection loop exit (" + exit + ")")
+							last := b.Nodes[len(b.Nodes)-1]
+							switch {
+							case len(selected) == 0 || fc.reachableFromAvoiding(start, b, selected):
+								obs = append(obs, mkOb(c, "CARVE.handler-bind", u, construct, last, Violated, "the search over the bindings can end here for a binding whose specifier neither equals the condition name nor is `condition`: later bindings never get their turn", true))
+							case len(carved) == 0 || fc.reachableFromAvoiding(start, b, carved):
+								obs = append(obs, mkOb(c, "CARVE.handler-bind", u, construct, last, Violated, "the search over the bindings can end here at a catch-all binding that may not handle the host panic: a later binding that names the condition (internal-panic) never gets its turn", true))
+							default:
+								obs = append(obs, mkOb(c, "CARVE.handler-bind", u, construct, last, Proved, "the search ends here only for a binding that matches the condition (and respects the carve-out); every other binding is passed over", true))
+							}
+						}
+					}
+					for _, p := range pushes {
+						construct := "dispatch PushCondition"
+						if len(selected) == 0 || fc.reachableFromAvoiding(start, p.loc.B, selected) {
+							obs = append(obs, mkOb(c, "CARVE.handler-bind", u, construct+": name match", p.call, Violated, "a handler can be dispatched although its specifier neither equals the condition name nor is `condition`", true))
+						} else {
+							obs = append(obs, mkOb(c, "CARVE.handler-bind", u, construct+": name match", p.call, Proved, "every path from the error edge to the dispatch passes an edge that entails (name equal or catch-all)", true))
+						}
+						if len(carved) == 0 || fc.reachableFromAvoiding(start, p.loc.B, carved) {
+							obs = append(obs, mkOb(c, "CARVE.handler-bind", u, construct+": panic carve-out", p.call, Violated, "the catch-all `condition` binding can be dispatched for an error recovered from a host panic", true))
+						} else {
+							obs = append(obs, mkOb(c, "CARVE.handler-bind", u, construct+": panic carve-out", p.call, Proved, "every path from the error edge to the dispatch passes an edge that entails (name equal or not IsInternalPanic(err))", true))
+						}
+						pushedErr := false
+						if len(p.push.Args) == 1 {
+							if !p.viaCall {
+								pushedErr = identObj(info, p.push.Args[0]) == errObj
+							} else if po := boundParam(info, p.call, p.inUnit.Obj, errObj); po != nil {
+								pushedErr = identObj(p.inUnit.Pkg.TypesInfo, p.push.Args[0]) == po
+							}
+						}
+						if pushedErr {
+							obs = append(obs, mkOb(c, "CARVE.handler-bind", u, construct+": pushed value", p.call, Proved, "the condition made available to rethrow is the error object itself", false))
+						} else {
+							obs = append(obs, mkOb(c, "CARVE.handler-bind", u, construct+": pushed value", p.call, Violated, "the value pushed for rethrow is not the error being handled", true))
 						}
 					}
 				}
-				for _, p := range pushes {
-					construct := "dispatch PushCondition"
-					if len(selected) == 0 || fc.reachableFromAvoiding(start, p.loc.B, selected) {
-						obs = append(obs, mkOb(c, "CARVE.handler-bind", u, construct+": name match", p.call, Violated, "a handler can be dispatched although its specifier neither equals the condition name nor is `condition`", true))
-					} else {
-						obs = append(obs, mkOb(c, "CARVE.handler-bind", u, construct+": name match", p.call, Proved, "every path from the error edge to the dispatch passes an edge that entails (name equal or catch-all)", true))
-					}
-					if len(carved) == 0 || fc.reachableFromAvoiding(start, p.loc.B, carved) {
-						obs = append(obs, mkOb(c, "CARVE.handler-bind", u, construct+": panic carve-out", p.call, Violated, "the catch-all `condition` binding can be dispatched for an error recovered from a host panic", true))
-					} else {
-						obs = append(obs, mkOb(c, "CARVE.handler-bind", u, construct+": panic carve-out", p.call, Proved, "every path from the error edge to the dispatch passes an edge that entails (name equal or not IsInternalPanic(err))", true))
-					}
-					pushedErr := false
-					if len(p.push.Args) == 1 {
-						if !p.viaCall {
-							pushedErr = identObj(info, p.push.Args[0]) == errObj
-						} else if po := boundParam(info, p.call, p.inUnit.Obj, errObj); po != nil {
-							pushedErr = identObj(p.inUnit.Pkg.TypesInfo, p.push.Args[0]) == po
+				if len(obs) == 0 {
+					for _, es := range starts {
+						if out := delegate(es.obj); len(out) > 0 {
+							return out
 						}
 					}
-					if pushedErr {
-						obs = append(obs, mkOb(c, "CARVE.handler-bind", u, construct+": pushed value", p.call, Proved, "the condition made available to rethrow is the error object itself", false))
-					} else {
-						obs = append(obs, mkOb(c, "CARVE.handler-bind", u, construct+": pushed value", p.call, Violated, "the value pushed for rethrow is not the error being handled", true))
-					}
+					obs = append(obs, mkOb(c, "CARVE.handler-bind", u, "dispatch", fd, Undecided, "no error test leading to the dispatch found", false))
 				}
+				return obs
 			}
-			if len(obs) == 0 {
-				obs = append(obs, mkOb(c, "CARVE.handler-bind", u, "dispatch", fd, Undecided, "no error test leading to the dispatch found", false))
-			}
-			return obs
+			return analyze(root, nil, 0)
 		}})
 
 	register(&Rule{ID: "RETHROW.identity", Floor: 1,
